@@ -3,6 +3,15 @@
 package rules
 
 import (
+	_ "embed"
+	"encoding/json"
+	"fmt"
+	"go/ast"
+	"go/types"
+	"regexp"
+	"strings"
+
+	"tcheck/ir"
 	"tcheck/core"
 	"tcheck/load"
 )
@@ -16,3 +25,199 @@ type RC struct {
 }
 
 func (rc *RC) Thorough() bool { return rc.Tier == "thorough" }
+
+var declIndex = map[*load.Program]map[*types.Func]*load.FuncInfo{}
+
+// DeclOf resolves a function object of the module to its declaration and package type info.
+func (rc *RC) DeclOf(f *types.Func) (*ast.FuncDecl, *types.Info) {
+	idx := declIndex[rc.P]
+	if idx == nil {
+		idx = map[*types.Func]*load.FuncInfo{}
+		for _, fi := range rc.P.Funcs {
+			if fi.Obj != nil {
+				idx[fi.Obj] = fi
+			}
+		}
+		declIndex = map[*load.Program]map[*types.Func]*load.FuncInfo{rc.P: idx}
+	}
+	if f == nil {
+		return nil, nil
+	}
+	if fi := idx[f.Origin()]; fi != nil && fi.Decl != nil && fi.Pkg != nil {
+		return fi.Decl, fi.Pkg.TypesInfo
+	}
+	return nil, nil
+}
+
+//go:embed funcs_ref.json
+var funcsRefJSON []byte
+
+var (
+	reviewedNames map[string]bool
+	newNamesIdx   = map[*load.Program]map[string]bool{}
+)
+
+// NewHelpers returns the names of module functions of the current tree that carry a name no
+// function of the reviewed tree had (funcs_ref.json, regenerated with `dbg fngen` after a
+// reviewed change): helpers extracted or introduced since. A rule that cannot follow a call into
+// such a helper reports "not decided" instead of alleging a violation.
+func (rc *RC) NewHelpers() map[string]bool {
+	if reviewedNames == nil {
+		reviewedNames = map[string]bool{}
+		var names []string
+		json.Unmarshal(funcsRefJSON, &names)
+		for _, n := range names {
+			reviewedNames[n] = true
+		}
+	}
+	if m, ok := newNamesIdx[rc.P]; ok {
+		return m
+	}
+	m := map[string]bool{}
+	for _, fi := range rc.P.Funcs {
+		if fi.Obj == nil || strings.HasSuffix(fi.File, "_test.go") {
+			continue
+		}
+		if n := fi.Obj.Name(); !reviewedNames[n] {
+			m[n] = true
+		}
+	}
+	newNamesIdx = map[*load.Program]map[string]bool{rc.P: m}
+	return m
+}
+
+var callName = regexp.MustCompile(`([A-Za-z_]\w*)\(`)
+
+// NewHelperIn names a helper introduced since the reviewed tree that is called in the text.
+func (rc *RC) NewHelperIn(texts ...string) string {
+	nh := rc.NewHelpers()
+	if len(nh) == 0 {
+		return ""
+	}
+	for _, t := range texts {
+		for _, m := range callName.FindAllStringSubmatch(t, -1) {
+			if nh[m[1]] {
+				return m[1]
+			}
+		}
+	}
+	return ""
+}
+
+// PathNewHelper names a new helper called in a guard or statement of the path.
+func (rc *RC) PathNewHelper(p ir.Path) string {
+	if h := rc.NewHelperIn(p.Guards...); h != "" {
+		return h
+	}
+	for _, st := range p.Steps {
+		if h := rc.NewHelperIn(st.Head); h != "" {
+			return h
+		}
+	}
+	return ""
+}
+
+var keyFunc = regexp.MustCompile(`^((?:internal/\w+|tensor|native)\.(?:\(\*?\w+\)\.)?\w+)`)
+
+// DowngradeRestructured turns a violation into "not decided" when the function the obligation
+// is keyed to was restructured around a helper the reviewed tree did not have (it calls one, or
+// is one). The rules read guards, terms and events inside one function; what such a helper
+// establishes or performs is outside what they can read, so they abstain instead of alleging a
+// violation. Rule floors and every obligation keyed elsewhere are unaffected.
+func DowngradeRestructured(rc *RC) {
+	nh := rc.NewHelpers()
+	if len(nh) == 0 {
+		return
+	}
+	cache := map[string]string{}
+	helperOf := func(key string) string {
+		m := keyFunc.FindStringSubmatch(key)
+		if m == nil {
+			return ""
+		}
+		fk := m[1]
+		if h, ok := cache[fk]; ok {
+			return h
+		}
+		h := ""
+		// the key may name a function, or a family/pair whose members are functions
+		var cands []*load.FuncInfo
+		if fi := rc.P.Func(fk); fi != nil {
+			cands = append(cands, fi)
+		}
+		for _, fi := range cands {
+			if fi.Obj != nil && nh[fi.Obj.Name()] {
+				h = fi.Obj.Name()
+				break
+			}
+			if fi.Decl == nil || fi.Decl.Body == nil {
+				continue
+			}
+			c := ir.NewCanon(rc.P.Fset, fi.Pkg.TypesInfo, ir.Options{ParamNames: true, KeepNames: true})
+			if x := rc.NewHelperIn(ir.Render(c.Func(fi.Decl))); x != "" {
+				h = x
+				break
+			}
+		}
+		cache[fk] = h
+		return h
+	}
+	for _, o := range rc.S.Obs {
+		if o.Verdict != core.Violation {
+			continue
+		}
+		// keys of families name the member after a colon: pkg.Family/class:Member
+		key := o.Key
+		if i := strings.LastIndex(key, ":"); i > 0 && strings.Contains(key[:i], "/") && !strings.Contains(key[i:], " ") {
+			if j := strings.Index(key, "."); j > 0 {
+				key = key[:j+1] + key[i+1:]
+			}
+		}
+		h := helperOf(key)
+		if h == "" {
+			h = helperOf(o.Key)
+		}
+		if h == "" {
+			continue
+		}
+		rc.S.Downgrade(o, fmt.Sprintf("not decided: the function is restructured around %s(), a helper introduced since the reviewed tree, which this rule does not follow [%s]", h, o.Detail))
+	}
+}
+
+// sameSkeleton: two canonical texts have the same statement skeleton - the same number of
+// lines, with the same indentation and the same statement class (branch, loop, return,
+// assignment, call) on each line. A rule that compares code with a reference shape decides only
+// code of that skeleton: same skeleton and a different term is a deviation it can name; another
+// skeleton is a restructuring it cannot tell from an error, and it abstains ("not decided").
+func sameSkeleton(a, b string) bool {
+	la, lb := strings.Split(strings.TrimRight(a, "\n"), "\n"), strings.Split(strings.TrimRight(b, "\n"), "\n")
+	if len(la) != len(lb) {
+		return false
+	}
+	class := func(l string) string {
+		ind := len(l) - len(strings.TrimLeft(l, " "))
+		t := strings.TrimSpace(l)
+		c := "stmt"
+		switch {
+		case strings.HasPrefix(t, "if ") || t == "else" || strings.HasPrefix(t, "["):
+			c = "branch"
+		case strings.HasPrefix(t, "for") || strings.HasPrefix(t, "range ") || strings.HasPrefix(t, "loop:"):
+			c = "loop"
+		case strings.HasPrefix(t, "switch") || strings.HasPrefix(t, "typeswitch") || strings.HasPrefix(t, "case ") || t == "default":
+			c = "switch"
+		case strings.HasPrefix(t, "return"):
+			c = "return"
+		case strings.HasPrefix(t, "continue") || strings.HasPrefix(t, "break") || strings.HasPrefix(t, "goto"):
+			c = "jump"
+		case strings.Contains(t, " = "):
+			c = "assign"
+		}
+		return fmt.Sprintf("%d:%s", ind, c)
+	}
+	for i := range la {
+		if class(la[i]) != class(lb[i]) {
+			return false
+		}
+	}
+	return true
+}
